@@ -196,8 +196,9 @@ def cases(draw):
     vals2 = {v: draw(value_st) for v in VARS}
     el1 = {e: {a: draw(value_st) for a in attrs} for e, attrs in ELEMS.items()}
     el2 = {e: {a: draw(value_st) for a in attrs} for e, attrs in ELEMS.items()}
+    el3 = {e: {a: draw(value_st) for a in attrs} for e, attrs in ELEMS.items()}
     return {"kind": "madx", "tree": tree, "text": wk.text(tree), "full": wk.text(tree, full=True),
-            "mode": draw(st.sampled_from(["item", "attr"])), "vals": [vals1, vals2], "elems": [el1, el2],
+            "mode": draw(st.sampled_from(["item", "attr"])), "vals": [vals1, vals2], "elems": [el1, el2], "elems3": el3,
             "rules": sorted(wk.rules)}
 
 
@@ -389,13 +390,44 @@ def exec_case(ctx, case):
     f = compare("after-change", exprs)
     if f:
         return finish(f)
-    if pushed:
+    def check_pushed(stage):
         im = outcome(lambda: imm.eval(case["text"]))
         got = ("ok", variables["t__"])
         if im[0] == "ok" and not same(im, got):
-            return finish(Failure("C19:variable-defined-by-expression-is-stale",
-                                  dict(rendered, immediate=show(im), variable=show(got),
-                                       dependencies=sorted(str(d) for d in nat[1]._get_dependencies()))))
+            return Failure("C19:variable-defined-by-expression-is-stale",
+                           dict(rendered, stage=stage, immediate=show(im), variable=show(got),
+                                dependencies=sorted(str(d) for d in nat[1]._get_dependencies())))
+        return None
+    if pushed:
+        f = check_pushed("after-change")
+        if f:
+            return finish(f)
+    # ---- whole elements are REPLACED through the manager by new objects (a lattice element redefined): expressions
+    # built before must read the new element, like immediate evaluation does
+    el3 = case.get("elems3")
+    if el3:
+        classes.add("elements-replaced")
+        try:
+            for e, attrs in el3.items():
+                if mode == "item":
+                    new = dict(attrs)
+                else:
+                    new = ElObj()
+                    for a, x in attrs.items():
+                        setattr(new, a, x)
+                eref[e] = new
+        except Exception as ex:
+            if pushed:
+                classes.add("push-raises-on-intermediate-valuation")
+                return finish(None)
+            return finish(Failure(f"C19:element-replacement-raises:{type(ex).__name__}", dict(rendered, raised=repr(ex)[:200])))
+        f = compare("after-elements-replaced", exprs)
+        if f:
+            return finish(f)
+        if pushed:
+            f = check_pushed("after-elements-replaced")
+            if f:
+                return finish(f)
     return finish(None)
 
 
